@@ -1,3 +1,3 @@
-CONSTANT Sel = {0,1,2,3,4,5,6,7,8,9,10}
+CONSTANTS Sel = {0,1,2,3,4,5,6,7,8,9,10,11}  Seed = 1  RandN = 10
 SPECIFICATION Spec
 CHECK_DEADLOCK FALSE
